@@ -237,4 +237,12 @@ def finish(ctx, seed=0, verbose=True):
         sys.stdout.flush()
     except BrokenPipeError:
         pass
-    return 1 if violations else 0
+    if violations:
+        return 1
+    # a rule that could decide NOTHING (every attempt ended in "not decided": the code uses a construct the engines do not
+    # model) is an analysis failure, not a pass
+    mute = sorted(set(nd["rule"] for nd in ctx.not_decided if ctx.rule_stats.get(nd["rule"], {}).get("obligations", 0) == 0))
+    if mute:
+        print("ANALYSIS-ERROR property=%s rule(s) %s decided nothing: %s" % (ctx.prop, ", ".join(mute), "; ".join(nd["what"] for nd in ctx.not_decided if nd["rule"] in mute)[:300]))
+        return 2
+    return 0
